@@ -1,5 +1,6 @@
 import CircBuf.Lemmas.Ctor
 import CircBuf.Lemmas.Ops
+import CircBuf.Lemmas.ToVec
 /-!
 # C12 — constructors and conversions give the specified contents, independently owned
 
@@ -16,8 +17,9 @@ import CircBuf.Lemmas.Ops
   `other`'s elements;
 * `into_iter` is the buffer itself consumed by `pop_front` / `pop_back` (C01/C08), so collecting it
   returns the original elements in order.
-(`to_vec` is covered by the correspondence and the allocation column; its Lean statement is the
-`contents` theorem of C07 plus the same `cloneList`.)
+* `to_vec` (`C12_to_vec`): the returned vector is `cloneList` of the contents — element-wise clones,
+  oldest first — the buffer itself is only read, and at most one allocation happens;
+* `boxed` (`C12_boxed`): an empty valid buffer of the same capacity behind exactly one allocation.
 -/
 namespace CircBuf
 
@@ -48,6 +50,17 @@ theorem C12_clone_from (other : List Elem) (s : Sys) (h : Inv s.buf) (hd : s.fau
       (cloneCount s.kind other.length) := cloneFrom_runs other s h hd hc
 
 /-- clones have the same values, in order … -/
+theorem C12_to_vec (s : Sys) (h : Inv s.buf) (hc : s.faults.clone = 0) :
+    ∃ s', toVec s = (.ok (cloneList s.kind s.next (abs s.buf)), s') ∧ s'.buf = s.buf ∧
+      s'.next = s.next + cloneCount s.kind s.buf.size ∧
+      s'.log = cloneLog s.kind s.next (abs s.buf) ++
+        ((if s.buf.size > 0 ∧ s.kind ≠ .zst then [Event.alloc] else []) ++ s.log) :=
+  toVec_spec s h hc
+
+theorem C12_boxed (s : Sys) (hW : s.buf.cap < W) :
+    ∃ s', boxed s = (.ok (), s') ∧ Inv s'.buf ∧ abs s'.buf = [] ∧ s'.buf.cap = s.buf.cap ∧
+      s'.log = Event.alloc :: s.log := boxed_spec s hW
+
 theorem C12_clone_values (n : Nat) (l : List Elem) :
     (cloneList .tracked n l).map (·.val) = l.map (·.val) := by
   induction l generalizing n with
